@@ -145,8 +145,8 @@ func (c *Ctx) Undecided(format string, a ...interface{}) {
 	panic(Undecided{fmt.Sprintf(format, a...)})
 }
 
-// Floor aborts when a mass rule matched fewer instances than the confirmed count
-// allows (vacuity guard).
+// Floor makes the run undecided when a mass rule matched fewer instances than the confirmed
+// count allows (vacuity guard).
 func (c *Ctx) Floor(rule string, got, confirmed int) {
 	// a tenth of the instances confirmed by hand: consolidating repeated code into helpers legitimately
 	// removes most instances of a per-site rule; only a rule that matches (almost) nothing is vacuous
@@ -155,7 +155,8 @@ func (c *Ctx) Floor(rule string, got, confirmed int) {
 		min = 1
 	}
 	if got < min {
-		c.Undecided("rule %s matched %d instances, below the floor %d (confirmed by hand: %d) — vacuity guard", rule, got, min, confirmed)
+		// soft: a violation found by another rule is still reported; without one the verdict is UNDECIDED
+		c.SoftUndecided("rule %s matched %d instances, below the floor %d (confirmed by hand: %d) — vacuity guard", rule, got, min, confirmed)
 	}
 }
 
